@@ -39,6 +39,8 @@ def run(ck: Check) -> None:
     c(ck)
     d(ck)
     e(ck)
+    f_(ck)
+    ck.floor("F", 2)
     ck.floor("A", 3)
     ck.floor("B", 3)
     ck.floor("C", 2)
@@ -473,3 +475,34 @@ def e(ck: Check) -> None:
             probs_fn.append("constants are removed although not requested (or kept although requested)")
     ck.ob("E", fm, sets[-1], not probs_fn, "; ".join(sorted(set(probs_fn))) if probs_fn else
           "every function restricted to the percolated space; constants removed on request only", key="functions")
+
+
+def f_(ck: Check) -> None:
+    """The reduced net / network cached for a node is the restriction to that node's own (percolated) space, whichever
+    base (the global one or the parent's cached one) the restriction starts from."""
+    SD = "biobalm.succession_diagram"
+    for q, callee, argi, argn in (("SuccessionDiagram.node_percolated_petri_net", "restrict_petrinet_to_subspace", 1, "sub_space"),
+                                  ("SuccessionDiagram.node_percolated_network", "percolate_network", 1, "space")):
+        fm = ck.prog.fm(SD, q)
+        f = fm.f
+        node_p = [p_ for p_ in f.params() if p_ != "self"][0]
+        want = f"FIELD<self|{node_p}|space>"
+        calls = [n for n in own_walk(f.node) if isinstance(n, ast.Call) and callee_name(n) == callee]
+        if not calls:
+            raise AnalysisError(f"anchor vanished: {callee} call in {q}")
+        for c in calls:
+            cn = fm.cfgn(c)
+            a = call_arg(c, argi, argn)
+            probs = []
+            if a is None:
+                probs.append("no space given")
+            else:
+                vals = [(d_, v_) for d_, v_ in fm.value_defs(a.id, cn)] if isinstance(a, ast.Name) else [(cn, a)]
+                for d_, v_ in vals:
+                    k = fm.key(v_, d_) if v_ is not None else "?"
+                    if k != want:
+                        probs.append(f"line {getattr(d_, 'lineno', c.lineno)}: the restriction uses `{text(v_)[:50] if v_ is not None else '?'}`, "
+                                     f"not the node's own space: variables fixed by percolation (or by the rest of the space) stay "
+                                     f"in the reduced object when this path is taken")
+            ck.ob("F", fm, f.stmt_of(c), not probs, "; ".join(probs) if probs else
+                  "restricted to the node's own space on every path", key=f"{q.split('.')[1]} space")
